@@ -65,6 +65,7 @@ mod chemistry;
 /// Verification hooks (compiled only with `--cfg mathcat_verif`)
 pub mod verif {
     pub use crate::canonicalize::verif as canonicalize;
+    pub use crate::tts::verif as tts;
 }
 
 pub mod shim_filesystem; // really just for override_file_for_debugging_rules, but the config seems to throw it off
